@@ -15,7 +15,10 @@ LEAN_MODULE = 'Proofs.C12'
 THEOREMS = ['Fsic.C12.' + n for n in [
     'reindex_spec', 'first_occurrence', 'fill_default_table', 'default_by_kind', 'reflected_branches',
     'reflected_property_defaults', 'fill_precedence', 'model_defaults',
-    'reindex_preserves_meta', 'coerce_ne_keyError', 'reindex_strict_unknown', 'effective_strict', 'reindex_succeeds']]
+    'reindex_preserves_meta', 'coerce_ne_keyError', 'reindex_strict_unknown', 'effective_strict', 'reindex_succeeds',
+    'reindexWith_spec', 'reindex_kind_eq_list', 'reindex_lookup_error', 'reindex_spec_all', 'reindex_succeeds_all',
+    'numpy_lookup_answers', 'reindexWith_succeeds', 'reindex_list_no_keyError', 'reindex_keyError_cause',
+    'reindex_elements_from_old_or_fill', 'reindex_series_local', 'copy_loop_natural']]
 RULE = ('span pairs: for list / tuple / mixed-hashable spans every old span of length 1..3 over 3 labels (repeats '
         'included) x every new span of length 0..3 (thorough: 0..4) over those labels plus one absent label; ranges '
         'x ranges and integer lists; NumPy int/str arrays (unique old spans + duplicate-label old spans); pandas '
@@ -49,7 +52,7 @@ ASSUMPTIONS = ['every series has the length of the span (C09 invariant)',
 META = {
     "text": "Reflected probe table (Generated.reindexProbes: what the imported reindex puts into a new period, per dtype of a 20-dtype catalogue) with theorems quantifying over it: the model's if/elif branch function equals the code's for bool / every int and uint width / timedelta64 / <U / float64, and the code's defaults equal the property's table (False, 0, NaN, '') for every bool/int/uint/float/complex/<U dtype. Theorems for every object (any variables, dtypes, values), every old/new span (permuted, disjoint, repeated labels; first occurrence = list.index) and every fill_value / keyword fills / strict combination: each new position holds the old value at the first occurrence of its label, else coerce(dtype, keyword fill if given else fill_value) with None -> NaN/0/False/''; models default status to '-' and iterations to -1 unless overridden; names, order, dtypes, strict flag and all other attributes carry over; unknown fill keywords are rejected with KeyError exactly under effective strictness (strict=None -> the object's flag); reindex succeeds on well-formed objects. The model is tied to VectorContainer.reindex / BaseModel.reindex by exact comparison of the full reindexed state (values, dtypes, order, exception class) on all generated span pairs.",
     "design_ref": "DESIGN.md §5 M6, §6 C12, §7 row 19",
-    "note": "Former findings reindex-object-elements-shared (fixed in /repo 9d7efdc) and reindex-bytes-default (fixed 9692991) keep their oracle keys: a return of either defect is a new VIOLATION. Partial: 'original unchanged / shares nothing' is not a theorem (the functional model has no aliasing; heap model belongs to C11) - checked by the oracle on the real code (ids, np.shares_memory, mutation probes). pandas get_loc / in are inputs for pandas spans; the pandas mixin (Series.reindex) is compared with the specification by the oracle only. Trusted: Lean kernel, axioms propext/Classical.choice/Quot.sound, the correspondence harness. The mixin with default arguments is held by the oracle to the same dtype default table as the base class (NaN, 0, False, '' - proved for the base class in fill_default_table; the mixin itself is not modelled). Former findings pandas-mixin-int/bool/str-default (fixed in /repo 7a4b423) and reindex-same-span-object-shared (fixed 4b4abc7) keep their oracle keys, so a regression is a new VIOLATION.",
+    "note": "Statements hold for every lookup of the model: list-like and NumPy spans (reindex_spec_all, reindex_succeeds_all, reindex_keyError_cause, reindex_lookup_error) and relative to a given position map (reindexWith_spec / reindexWith_succeeds: pandas, where in/get_loc are inputs). 'Original unchanged' holds by construction of the pure model (not a theorem); proved instead: the result is built only from the old values and the fill (reindex_elements_from_old_or_fill, reindex_series_local, copy_loop_natural). 'Shares nothing' needs object identity, which the model lacks: oracle only. Former findings reindex-object-elements-shared (fixed in /repo 9d7efdc) and reindex-bytes-default (fixed 9692991) keep their oracle keys: a return of either defect is a new VIOLATION. Partial: 'original unchanged / shares nothing' is not a theorem (the functional model has no aliasing; heap model belongs to C11) - checked by the oracle on the real code (ids, np.shares_memory, mutation probes). pandas get_loc / in are inputs for pandas spans; the pandas mixin (Series.reindex) is compared with the specification by the oracle only. Trusted: Lean kernel, axioms propext/Classical.choice/Quot.sound, the correspondence harness. The mixin with default arguments is held by the oracle to the same dtype default table as the base class (NaN, 0, False, '' - proved for the base class in fill_default_table; the mixin itself is not modelled). Former findings pandas-mixin-int/bool/str-default (fixed in /repo 7a4b423) and reindex-same-span-object-shared (fixed 4b4abc7) keep their oracle keys, so a regression is a new VIOLATION.",
     "technique": "Lean 4 proof (induction over the copy loop and the variable list) + exhaustive differential correspondence + property oracle with sharing probes"
 }
 
